@@ -402,6 +402,10 @@ from . import initial
 
 from . import casts
 
+from . import mustcall
+
+from . import removals
+
 OBLIGATIONS = [
     ('C03.O1', 'status constructors', 'Predicted only from InputQueue::input (sticky prediction = predictor(newest real '
      'input) or default); Confirmed carries the stored input behind the frame equality; Disconnected carries the default.', o1),
@@ -418,4 +422,6 @@ OBLIGATIONS = [
     ('C03.O15', 'wire configuration: reader = writer', 'every bincode site of the crate belongs to one of the two wires (player inputs in InputBytes, whole messages in the UDP socket); within a wire the sites that write (serialize, serialize_into, serialized_size) and the sites that read (deserialize) use the same integer encoding and byte order (top-level bincode functions = fixed-width little-endian; an Options chain is read from its with_* calls): a Confirmed input is the bytes the remote serialised.', o15),
     ('C03.I', 'initial state', 'every constructor gives the fields this property\'s rules interpret (NULL_FRAME = none / nothing yet, 0 = first frame, latches open, typestate start) the value listed in tables/initial_state.json; every field compared with NULL_FRAME anywhere is listed; see rules/initial.py', initial.rule_for('C03')),
     ('C03.C', 'lossy integer casts', 'every sign-changing cast (signed -> unsigned; NULL_FRAME is -1) and every narrowing cast to < 32 bits or from 128 bits in the crate is in range by a dominating guard, by the shape of its operand, or listed with a reason in tables/casts.json; see rules/casts.py', casts.rule),
+    ('C03.M', 'must-call floor', 'the calls listed for this property in tables/must_call.json are made on every path from the entry of their function to a normal return (interprocedural must-call): a new early return, fast path or extra condition in front of one of them is reported; see rules/mustcall.py', mustcall.rule_for('C03')),
+    ('C03.R', 'how map entries are written', 'every write into a map this property\'s rules rely on has the reviewed class (overwrite: the newest value for a key wins; keep-existing: the first one does) -- a local input submitted again before advancing replaces the pending one; see rules/removals.py, tables/removals.json', removals.rule_for('C03')),
 ]
